@@ -774,10 +774,15 @@ Proof. reflexivity. Qed.
 Lemma zlen1 {A} (x : A) : zlen [x] = 1. Proof. reflexivity. Qed.
 Ltac zl := unfold bytes, byte in *; repeat (rewrite zlen_cons in * || rewrite zlen_app in * || rewrite zlen_nil in *).
 
+(* the delimiter "that cannot occur": [decode lg q_none body] is the value of a RAW body, in which both quote kinds are
+   ordinary characters (the joined body of a concatenation before minify_string repairs it, Js/StrCat.v) *)
+Definition q_none : byte := -1.
+Definition decode_raw (lg : bool) (body : bytes) : option (list unit) := decode lg q_none body.
+
 Section ScanMid.
   Variables q q' : byte.
   Variable legacy : bool.
-  Hypothesis Hq : q = c_dq \/ q = c_sq.
+  Hypothesis Hq : q = c_dq \/ q = c_sq \/ q = q_none.
   Hypothesis Hq' : q' = c_dq \/ q' = c_sq \/ q' = c_bt.
 
   Definition Goal_ (rest : bytes) (v : list unit) : Prop :=
@@ -812,7 +817,7 @@ Section ScanMid.
   Qed.
 
   Lemma q_ne_bt : q <> c_bt.
-  Proof. destruct Hq as [-> | ->]; discriminate. Qed.
+  Proof. destruct Hq as [-> | [-> | ->]]; discriminate. Qed.
 
   Lemma Mid_plain1 c m v : c <> c_bs -> c <> q' -> c <> 13 -> c <> 10 -> Mid q' m v -> Mid q' ([c] ++ m) ([UByte c] ++ v).
   Proof. intros. apply Mid_plain; auto. Qed.
@@ -871,7 +876,7 @@ Section ScanMid.
       assert (Hd9 : exists v9, decode legacy q r9 = Some v9 /\ v' = map UByte script_end ++ v9).
       { cbn [app script_end] in Hd.
         rewrite decode_id_esc in Hd by (auto; intros; reflexivity).
-        rewrite !decode_plain in Hd by (auto; destruct Hq as [-> | ->]; discriminate).
+        rewrite !decode_plain in Hd by (auto; destruct Hq as [-> | [-> | ->]]; discriminate).
         destruct (decode legacy q r9) as [v9|]; [|discriminate]. exists v9. split; [reflexivity|].
         cbn in Hd. inversion Hd. reflexivity. }
       destruct Hd9 as (v9 & Hd9 & ->).
@@ -1415,7 +1420,14 @@ End ScanMid.
 Lemma scan_mid q q' legacy : (q = c_dq \/ q = c_sq) -> (q' = c_dq \/ q' = c_sq \/ q' = c_bt) ->
   forall n body v, (length body <= n)%nat -> decode legacy q body = Some v ->
   exists mid, scanL q' (body ++ [q']) = mid ++ [q'] /\ Mid q' mid v.
-Proof. intros Hq Hq' n. exact (scan_mid_all q q' legacy Hq Hq' n). Qed.
+Proof. intros Hq Hq' n. apply (scan_mid_all q q' legacy); tauto. Qed.
+
+(* the same for a raw body: an unescaped quote of either kind is an ordinary character of the input; the scan escapes
+   the ones that equal the target delimiter *)
+Lemma scan_mid_raw q' legacy : (q' = c_dq \/ q' = c_sq \/ q' = c_bt) ->
+  forall n body v, (length body <= n)%nat -> decode_raw legacy body = Some v ->
+  exists mid, scanL q' (body ++ [q']) = mid ++ [q'] /\ Mid q' mid v.
+Proof. intros Hq' n. apply (scan_mid_all q_none q' legacy); tauto. Qed.
 
 (* ---------- the top level ---------- *)
 Lemma choose_quote_cases c tmpl :
